@@ -168,7 +168,13 @@ where
             {
                 self.publish_value(
                     LocationAndType::Basic(*address),
-                    MemoryValue::Basic(Some(AccountInfo { code: None, ..info.clone() })),
+                    // Non-empty code travels as its own `Code` version. An account without code keeps
+                    // the (empty) bytecode its journal entry carries, exactly as a sequential state
+                    // hands it to the next transaction.
+                    MemoryValue::Basic(Some(AccountInfo {
+                        code: if has_code { None } else { info.code.clone() },
+                        ..info.clone()
+                    })),
                     estimate,
                     &mut write_set,
                 );
